@@ -196,6 +196,10 @@ class SMUserList(UserList, ABC):
             elif isinstance(arg[0], np.ndarray):
                 # possibly a list of numpy arrays
                 self.data = [self._import(x, check=check) for x in arg]
+                if any(x is None for x in self.data):
+                    # an invalid element: reject the whole list rather than keep None values
+                    self.data = []
+                    return False
 
             elif type(arg[0]) == type(self):
                 # possibly a list of objects of same type
